@@ -97,6 +97,29 @@ def gen_cases(rng, tier):
                 c["env"]["conv_info"] = conv
                 c["tag"] = "addr:%s/%s/%s/%s" % (binding, dk, rk, ck)
                 yield c
+    # an SP that has NO consumer endpoint for the binding the Response arrives on: every present
+    # Destination is foreign
+    for endpoints, binding in (("post_only", "redirect"), ("redirect_only", "post"), ("post_only", "post"), ("redirect_only", "redirect")):
+        for (dk, d) in addr_values(rng, binding):
+            for ck, conv in (("none", None), ("eid", {"entity_id": S.SP_ID})):
+                c = C.base_case(PROP, binding=binding)
+                c["cfg"]["endpoints"] = endpoints
+                c["return_addrs"] = F.own_addrs(binding, endpoints)
+                c["resp"]["destination"] = d
+                c["env"]["conv_info"] = conv
+                c["tag"] = "addr-noep:%s/%s/%s/%s" % (endpoints, binding, dk, ck)
+                yield c
+    # Recipient look-alikes of the entityID (truncations, extensions, case) with conversation info
+    for binding in ("post", "redirect"):
+        for i in range(12 if tier == "quick" else 60):
+            rcp = [S.SP_ID[:-1], S.SP_ID[: len(S.SP_ID) // 2], S.SP_ID[8:], S.SP_ID + "/", S.SP_ID.upper(), "sp.verif.example",
+                   lookalike(rng, S.SP_ID), lookalike(rng, S.SP_ID), S.SP_ID[1:], "https://", S.SP_ID + " ", " " + S.SP_ID][i % 12]
+            for conv in ({"entity_id": S.SP_ID}, {"entity_id": S.SP_ID, "remote_addr": "192.0.2.7"}):
+                c = C.base_case(PROP, binding=binding)
+                c["resp"]["assertions"][0]["subject"]["confs"][0]["data"]["recipient"] = rcp
+                c["env"]["conv_info"] = conv
+                c["tag"] = "addr-eid-lookalike:%s/%d" % (binding, i)
+                yield c
     # SOAP: Destination is not looked at for synchronous bindings
     for dk, d in addr_values(rng, "post"):
         c = C.base_case(PROP, binding="soap")
